@@ -498,6 +498,13 @@ class Lowerer:
                 sc = getattr(self.p, 'static_consts', {})
                 if rid in sc:
                     return self.mk('lit', node, value=sc[rid])
+                si = getattr(self.p, 'static_inits', {})
+                if rid in si and getattr(self, '_si_depth', 0) < 4:
+                    self._si_depth = getattr(self, '_si_depth', 0) + 1
+                    try:
+                        return self.expr(si[rid])
+                    finally:
+                        self._si_depth -= 1
                 probe = self.p.probes.get(rid)
                 if probe:
                     return self.mk('var', node, id=rid, name=rd.get('name'), probe=probe, extern=True)
